@@ -2129,6 +2129,216 @@ func c15r24(c *Ctx, r *Report) {
 	r.floor("req(...) calls that include reqHeader or reqFullRedraw (control: the call shape resolves)", reqs, 10)
 }
 
+// c16r21: handleHttpRequest accepts a Content-Length of up to maxContentLength and reads the request with a
+// bufio.Scanner, whose tokens are limited to 64 KiB unless Scanner.Buffer raises the limit (D92: it was not
+// called: a POST body of more than 64 KiB without a CRLF in it made the scanner give up silently and the
+// complete request was answered "400 incomplete request", while the same action list is accepted from --bind).
+func c16r21(c *Ctx, r *Report) {
+	l := c.L
+	r.rule("C16-R21", "C (the scanner can hold what the length check admits)", "P1",
+		"in handleHttpRequest, every call of bufio.Scanner.Scan is dominated by a call of Scanner.Buffer on the same scanner whose maximum is computed from the constant maxContentLength",
+		"a POST whose body is within the advertised limit but has a line longer than 64 KiB is rejected as incomplete (and the connection reset): the action list is not executed as it would be from --bind")
+	k := l.Const("fzf", "maxContentLength")
+	var fn *ssa.Function
+	for _, f := range l.funcs {
+		if f.Pkg != nil && f.Pkg.Pkg.Path() == pkgAlias["fzf"] && strings.HasSuffix(f.Name(), "handleHttpRequest") {
+			fn = f
+		}
+	}
+	if fn == nil || k == nil {
+		r.unest("anchors", token.NoPos, nil, "anchors handleHttpRequest / maxContentLength", "cannot resolve")
+		return
+	}
+	limit, _ := constantInt64(k)
+	var bufs []*ssa.Call
+	eachInstr(fn, func(in ssa.Instruction) {
+		call, ok := in.(*ssa.Call)
+		if !ok || calleeName(call.Common()) != "(*bufio.Scanner).Buffer" || len(call.Call.Args) != 3 {
+			return
+		}
+		if v, ok := lowerBoundConst(call.Call.Args[2]); ok && v >= limit {
+			bufs = append(bufs, call)
+		}
+	})
+	n := 0
+	eachInstr(fn, func(in ssa.Instruction) {
+		call, ok := in.(*ssa.Call)
+		if !ok || calleeName(call.Common()) != "(*bufio.Scanner).Scan" {
+			return
+		}
+		n++
+		good := false
+		for _, b := range bufs {
+			if b.Call.Args[0] == call.Call.Args[0] && dominates(b, call) {
+				good = true
+			}
+		}
+		r.check(good, fmt.Sprintf("%s:Scan #%d reads with a buffer limit of at least maxContentLength", relName(fn), n), call.Pos(), fn,
+			"Scanner.Buffer(…, >= maxContentLength) precedes", "the scanner is left at its default token limit of 64 KiB although bodies of up to maxContentLength are admitted")
+	})
+	r.floor("Scanner.Scan calls in handleHttpRequest", n, 1)
+}
+
+// lowerBoundConst: the value is a constant, or a sum of constants (x + k folded by the compiler is a constant
+// already; this handles the unfolded `const + const` shapes and conversions).
+func lowerBoundConst(v ssa.Value) (int64, bool) {
+	v = stripConv(v)
+	if k, ok := constIntVal(v); ok {
+		return k, true
+	}
+	if bo, ok := v.(*ssa.BinOp); ok && bo.Op == token.ADD {
+		a, ok1 := lowerBoundConst(bo.X)
+		b, ok2 := lowerBoundConst(bo.Y)
+		if ok1 && ok2 {
+			return a + b, true
+		}
+	}
+	return 0, false
+}
+
+// c11r23: parseAnsiCode reads a decimal parameter into an int by multiply-and-add. A terminal ignores a
+// parameter that is out of range; an int that wraps around turns it into another, valid one (D93: it wrapped:
+// ESC[18446744073709551650m was read as 34 = blue, ESC[18446744073709551616m as 0 = reset). The accumulation
+// is therefore guarded by a comparison of the accumulator with a constant.
+func c11r23(c *Ctx, r *Report) {
+	l := c.L
+	r.rule("C11-R23", "C (no wrap-around in the parameter parser)", "P1",
+		"in parseAnsiCode, the digit loop contains a branch on a comparison of the accumulator (or of its updated value acc*10+digit) with a constant, on the way to every multiplication of the accumulator by 10",
+		"an over-long SGR parameter is taken for a small valid one: text is coloured or reset by a sequence a terminal ignores")
+	fn := l.Fn("fzf", "parseAnsiCode")
+	if fn == nil {
+		r.unest("anchors", token.NoPos, nil, "anchor parseAnsiCode", "cannot resolve")
+		return
+	}
+	n := 0
+	eachInstr(fn, func(in ssa.Instruction) {
+		mul, ok := in.(*ssa.BinOp)
+		if !ok || mul.Op != token.MUL || !isConstInt(mul.Y, 10) {
+			return
+		}
+		acc, ok := mul.X.(*ssa.Phi)
+		if !ok {
+			return
+		}
+		n++
+		guarded := false
+		eachInstr(fn, func(in2 ssa.Instruction) {
+			iff, ok := in2.(*ssa.If)
+			if !ok {
+				return
+			}
+			cmp, ok := iff.Cond.(*ssa.BinOp)
+			if !ok {
+				return
+			}
+			// the accumulator itself, or its updated value acc*10 + digit
+			onAcc := cmp.X == ssa.Value(acc)
+			if add, ok := cmp.X.(*ssa.BinOp); ok && add.Op == token.ADD && add.X == ssa.Value(mul) {
+				onAcc = true
+			}
+			if !onAcc {
+				return
+			}
+			switch cmp.Op {
+			case token.GTR, token.GEQ, token.LSS, token.LEQ:
+			default:
+				return
+			}
+			if _, isK := constIntVal(cmp.Y); !isK {
+				return
+			}
+			// in the digit loop: before the multiplication, or behind it and before the next iteration
+			if iff.Block() == mul.Block() || iff.Block().Dominates(mul.Block()) || (mul.Block().Dominates(iff.Block()) && reachFrom(iff.Block())[mul.Block()]) {
+				guarded = true
+			}
+		})
+		r.check(guarded, fmt.Sprintf("%s:accumulation #%d is range-checked", relName(fn), n), mul.Pos(), fn,
+			"the accumulator is compared with a constant before it is multiplied", "the accumulator is multiplied by 10 with no range check: a long digit string wraps around to a small valid parameter")
+	})
+	r.floor("decimal accumulations in parseAnsiCode", n, 1)
+}
+
+// c11r24: the painter keeps one hyperlink open at a time. When the next span carries ANOTHER link the open one
+// has to be closed as well, so the per-span LinkEnd cannot be limited to "the next span has no link" (D94: it
+// was: of two adjacent links ESC]8;;http://a/ESC\AAA ESC]8;;http://b/ESC\BBB the second was never sent and BBB
+// was drawn as part of the first link — in the list and in the preview window alike).
+func c11r24(c *Ctx, r *Report) {
+	l := c.L
+	r.rule("C11-R24", "A (a change of link closes the open one)", "P1",
+		"every per-span call of Window.LinkEnd (inside a loop over spans, or in the callback extractColor runs per span) is reachable on a path that has not tested the link of the next span to be nil",
+		"text that belongs to a second hyperlink directly following a first one is drawn as part of the first: the screen shows a link target the input does not give to that text")
+	n := 0
+	for _, fn := range l.funcs {
+		if fn.Pkg == nil || fn.Pkg.Pkg.Path() != pkgAlias["fzf"] || fn.Blocks == nil {
+			continue
+		}
+		hasBegin := false
+		var ends []*ssa.Call
+		eachInstr(fn, func(in ssa.Instruction) {
+			call, ok := in.(*ssa.Call)
+			if !ok || !call.Common().IsInvoke() {
+				return
+			}
+			switch call.Common().Method.Name() {
+			case "LinkBegin":
+				hasBegin = true
+			case "LinkEnd":
+				ends = append(ends, call)
+			}
+		})
+		if !hasBegin || len(ends) == 0 {
+			continue
+		}
+		pc := pathConds(fn)
+		for i, call := range ends {
+			perSpan := false
+			if fn.Parent() != nil {
+				perSpan = true // the callback runs once per span
+			} else if inLoop(call.Block()) {
+				// a LinkEnd behind the loop over the spans is not per span
+				for _, other := range fn.Blocks {
+					for _, in := range other.Instrs {
+						if c2, ok := in.(*ssa.Call); ok && c2.Common().IsInvoke() && c2.Common().Method.Name() == "LinkBegin" {
+							if reachFrom(call.Block())[c2.Block()] {
+								perSpan = true
+							}
+						}
+					}
+				}
+			}
+			if !perSpan {
+				continue
+			}
+			n++
+			onlyNil, reach := pc.Implies(call.Block(), func(lits []Lit) bool {
+				for _, lt := range lits {
+					bo, ok := lt.Atom.(*ssa.BinOp)
+					if !ok || (bo.Op != token.EQL && bo.Op != token.NEQ) {
+						continue
+					}
+					if k, ok := bo.Y.(*ssa.Const); !ok || k.Value != nil {
+						continue
+					}
+					if (bo.Op == token.EQL) != lt.Val {
+						continue // asserts non-nil
+					}
+					// the link of the next span: a field load or a parameter, not the painter's own variable
+					if f, _ := loadedField(bo.X); f != nil {
+						return true
+					}
+					if _, isP := bo.X.(*ssa.Parameter); isP {
+						return true
+					}
+				}
+				return false
+			})
+			r.check(!onlyNil && reach, fmt.Sprintf("%s:per-span LinkEnd #%d", relName(rootFn(fn)), i+1), call.Pos(), fn,
+				"also reached when the next span has another link", "the open link is closed only when the next span has no link: a directly following different link is never begun")
+		}
+	}
+	r.floor("per-span LinkEnd calls", n, 2)
+}
+
 func round10(c *Ctx, r *Report, prop string) {
 	switch prop {
 	case "C01":
@@ -2154,6 +2364,10 @@ func round10(c *Ctx, r *Report, prop string) {
 		c10r14(c, r)
 	case "C11":
 		c11r22(c, r)
+		c11r23(c, r)
+		c11r24(c, r)
+	case "C16":
+		c16r21(c, r)
 	case "C07":
 		c04r14(c, r) // Merger.Get: the position asked for is the position returned
 	case "C08":
